@@ -211,6 +211,13 @@ func (t *translator) extract2(g *fn) {
 		ps = append(ps, "("+cal.PName+" : "+cal.Param+")")
 		ft.used[cal.PName] = true
 	}
+	for _, xp := range g.cfg.ExtraParams {
+		if len(xp) != 2 {
+			failf("extra_params: each entry is [name, Lean type]")
+		}
+		ps = append(ps, "("+xp[0]+" : "+xp[1]+")")
+		ft.used[xp[0]] = true
+	}
 	// bind every occurrence of a listed variable in the extracted piece
 	byName := map[string]*ast.Object{}
 	var root ast.Node = hit.expr
